@@ -524,6 +524,10 @@ func (a *actor) do(st *Step, idx int, call, method, path string, hdr map[string]
 		}
 		extra = map[string]any{"events": ev}
 	}
+	if (st.SlowBody == "cut" || st.SlowBody == "cutchunked") && len(body) >= 2 && len(body) <= 8192 {
+		// what is really put on the wire before the upload is broken off
+		extra = map[string]any{"sentHex": hex.EncodeToString(body[:len(body)/2])}
+	}
 	a.h.record(Event{Actor: a.id, Proc: a.procName, Kind: "issue", Call: call, Step: idx, Tag: st.Tag, ReqID: reqID, Path: path, Body: bsum, Headers: flatHdr(req.Header), Extra: extra})
 	if st.SigParked != "" && parkWho != "" {
 		go func() {
